@@ -5,6 +5,9 @@
 // set_sync(false), insert_local, get_exact, insert_remote, sync_initial_message, get_state} issued through the SyncHandle to a freshly
 // spawned actor; replies are compared with the handle-counting model of C14 (usable iff handles > 0, close reports closedness, sync gate,
 // sticky enable across opens, failed requests change nothing) and shutdown must hand back a store holding every acknowledged write.
+// Second part: after every sequence of up to 4 state-changing requests over {open, open with sync, close, set_sync(true), set_sync(false)} (781
+// sequences) each gated request kind {insert_local, delete_prefix, get_exact, get_sync_peers, export_secret_key, subscribe, get_state: usable iff
+// handles > 0; insert_remote, sync_initial_message, sync_process_message: iff handles > 0 and sync enabled} is probed once against the model.
 #[cfg(test)]
 mod verif_rp_c14_actor {
     use super::*;
@@ -103,5 +106,81 @@ mod verif_rp_c14_actor {
         let n = layer.len();
         for sq in &layer { run_sequence(sq, &ns, &author, &remote).await; }
         println!("c14_actor: {n} sequences of length {depth}");
+    }
+
+    async fn probe_gates(seq: &[Op], ns: &NamespaceSecret, author: &Author, remote: &Author, msg: &crate::ranger::Message<SignedEntry>) {
+        let mut store = Store::memory();
+        store.import_namespace(ns.clone().into()).unwrap();
+        store.import_author(author.clone()).unwrap();
+        let handle = SyncHandle::spawn(store, None, "verif".to_string());
+        let id = ns.id();
+        let (mut h, mut s) = (0usize, false);
+        for op in seq {
+            match op {
+                Op::Open | Op::OpenSync => {
+                    let sync = *op == Op::OpenSync;
+                    let mut opts = OpenOpts::default();
+                    if sync { opts = opts.sync(); }
+                    handle.open(id, opts).await.unwrap();
+                    s = if h == 0 { sync } else { s || sync };
+                    h += 1;
+                }
+                Op::Close => { let _ = handle.close(id).await; if h > 0 { h -= 1; if h == 0 { s = false; } } }
+                Op::SyncOn | Op::SyncOff => { let v = *op == Op::SyncOn; let _ = handle.set_sync(id, v).await; if h > 0 { s = v; } }
+                _ => unreachable!(),
+            }
+        }
+        let ctx = format!("after {seq:?} ({h} handles, sync {s})");
+        let base = crate::sync::Record::empty_current().timestamp() - 1_000_000;
+        let open = h > 0;
+        let syncing = h > 0 && s;
+        let r = handle.sync_process_message(id, msg.clone(), [4u8; 32], Default::default()).await;
+        assert_eq!(r.is_ok(), syncing, "WITNESS sync_process_message usable={} but document syncing={syncing} {ctx}", r.is_ok());
+        let r = handle.sync_initial_message(id).await;
+        assert_eq!(r.is_ok(), syncing, "WITNESS sync_initial_message usable={} but document syncing={syncing} {ctx}", r.is_ok());
+        let e = SignedEntry::from_parts(ns, remote, b"probe-remote", Record::new(Hash::new(b"pr"), 1, base));
+        let r = handle.insert_remote(id, e, [3u8; 32], ContentStatus::Missing).await;
+        assert_eq!(r.is_ok(), syncing, "WITNESS insert_remote usable={} but document syncing={syncing} {ctx}", r.is_ok());
+        let r = handle.insert_local(id, author.id(), b"probe-local".to_vec().into(), Hash::new(b"pl"), 1).await;
+        assert_eq!(r.is_ok(), open, "WITNESS insert_local usable={} but document open={open} {ctx}", r.is_ok());
+        let r = handle.delete_prefix(id, author.id(), b"zz".to_vec().into()).await;
+        assert_eq!(r.is_ok(), open, "WITNESS delete_prefix usable={} but document open={open} {ctx}", r.is_ok());
+        let r = handle.get_exact(id, author.id(), b"probe-local".to_vec().into(), true).await;
+        assert_eq!(r.is_ok(), open, "WITNESS get_exact usable={} but document open={open} {ctx}", r.is_ok());
+        let r = handle.get_sync_peers(id).await;
+        assert_eq!(r.is_ok(), open, "WITNESS get_sync_peers usable={} but document open={open} {ctx}", r.is_ok());
+        let r = handle.export_secret_key(id).await;
+        assert_eq!(r.is_ok(), open, "WITNESS export_secret_key usable={} but document open={open} {ctx}", r.is_ok());
+        let (tx, _rx) = async_channel::bounded(8);
+        let r = handle.subscribe(id, tx).await;
+        assert_eq!(r.is_ok(), open, "WITNESS subscribe usable={} but document open={open} {ctx}", r.is_ok());
+        let r = handle.get_state(id).await;
+        assert_eq!(r.is_ok(), open, "WITNESS get_state usable={} but document open={open} {ctx}", r.is_ok());
+        if let Ok(st) = r { assert_eq!((st.handles, st.sync), (h, s), "WITNESS get_state {ctx}"); }
+        handle.shutdown().await.unwrap();
+    }
+
+    #[tokio::test]
+    async fn every_gated_request_follows_the_open_state() {
+        let mut rng = rand::rng();
+        let ns = NamespaceSecret::new(&mut rng);
+        let author = Author::new(&mut rng);
+        let remote = Author::new(&mut rng);
+        let msg = {
+            let mut other = Store::memory();
+            let mut r = other.new_replica(ns.clone()).unwrap();
+            r.sync_initial_message().unwrap()
+        };
+        const ST: [Op; 5] = [Op::Open, Op::OpenSync, Op::Close, Op::SyncOn, Op::SyncOff];
+        let mut all: Vec<Vec<Op>> = vec![vec![]];
+        let mut layer: Vec<Vec<Op>> = vec![vec![]];
+        for _ in 0..4 {
+            let mut next = vec![];
+            for sq in &layer { for op in ST { let mut t = sq.clone(); t.push(op); next.push(t); } }
+            all.extend(next.iter().cloned());
+            layer = next;
+        }
+        for sq in &all { probe_gates(sq, &ns, &author, &remote, &msg).await; }
+        println!("c14_actor: {} state prefixes probed", all.len());
     }
 }
